@@ -81,6 +81,12 @@ fn materialise(root: &Path, l: &Layout) -> std::io::Result<()> {
     if l.stray & 1 == 1 {
         std::fs::write(root.join("pkgdb.byfile.db"), b"db")?;
     }
+    if l.stray & 1 == 1 {
+        // entries that cannot be stat'ed: they are neither packages nor a reason to stop
+        for n in ["000-dangling-1", "mmm-dangling-5", "zzz-dangling-9"] {
+            std::os::unix::fs::symlink("does-not-exist", root.join(n))?;
+        }
+    }
     if l.stray & 2 == 2 {
         std::fs::write(root.join("pkg-vulnerabilities"), b"vulns")?;
         std::fs::write(root.join("z-9"), b"a plain file that looks like a package name")?;
@@ -281,7 +287,7 @@ fn main() {
          drawn from 12 name shapes (one or several '-', nb revisions, 'nb' as base, digits and dots, last part starting with a letter) \
          with distinct names, each with EVERY subset of {+COMMENT, +CONTENTS, +DESC}, optionally \
          extra '+' files and a non-metadata file, plus stray plain files (including one whose name \
-         looks like a package) and the empty database. Checked: the multiset of yielded packages == \
+         looks like a package) and dangling symbolic links and the empty database. Checked: the multiset of yielded packages == \
          the complete directories, each once; pkgname == directory name; pkgbase / pkgversion == \
          parts around the last '-'; read_metadata(e) == content of '+FILE' for every written entry \
          and Err otherwise, for all 14 entries. Tables: from_filename(to_filename(e)) == e for the \
@@ -327,6 +333,11 @@ fn main() {
                 }
             }
         }
+    }
+    // scale: databases with many packages (every third one incomplete, strays in between)
+    for n in [9usize, 16, 17, 40] {
+        let dirs: Vec<(usize, u8, bool)> = (0..n.min(NAMES.len())).map(|k| (k, if k % 3 == 2 { (k % 7) as u8 } else { 7 }, k % 2 == 0)).collect();
+        layouts.push(Layout { dirs, stray: 3 });
     }
     run.bound(format!("{} database layouts (<= 3 package directories, all subsets of the mandatory files); 14-entry table with all 1-edit near-misses; 64 is_valid combinations", layouts.len()));
     par_items(&run, "C20 layouts", &layouts, |i, l, t| {
